@@ -9,6 +9,7 @@ import itertools
 import json
 import os
 import re
+import time
 
 from common import CASES_HEADER, COQ, REPO, VERIF, Check, coq_eval_parallel, run_impl
 
@@ -526,9 +527,9 @@ def run(chk: Check):
     streams["hostile"] = list(HOSTILE)
     streams["exhaustive-depth2"] = exhaustive_small()
     g = Gen(rng)
-    nrand = 40000 if T else 3000
+    nrand = 20000 if T else 1500
     streams["random-depth<=4"] = [g.string() for _ in range(nrand)]
-    nseeds = 300 if T else 40
+    nseeds = 300 if T else 12
     seeds = []
     while len(seeds) < nseeds:
         s = g.string()
@@ -559,7 +560,10 @@ def run(chk: Check):
                 xs = [jx(()), jx(rng.choice([t for t in tuples if len(t) == 4]))] + [jx(rng.choice(tuples)) for _ in range(per_string - 2)]
             req.append([s, xs])
             origin.append(name)
-    impl = run_impl("c20_impl.py", {"strings": req}, timeout=3000)
+    t_impl = time.time()
+    use = [k for k, o in enumerate(origin) if o in ("corpus", "hostile") or k % (5 if T else 23) == 0]
+    impl = run_impl("c20_impl.py", {"strings": req, "use_sites": use}, timeout=3000)
+    t_impl = time.time() - t_impl
     recs = impl["records"]
     for r, o in zip(recs, origin):
         r["stream"] = o
@@ -567,11 +571,11 @@ def run(chk: Check):
     # ---- translator cross-check: static reading == what the imported module holds
     rt = impl["tables"]
     if static_tables is not None:
+        names = dict(OPFUN, **BUILTIN)
         for t in TABLES:
-            want = [[k, {v: k2 for k2, v in list(OPFUN.items()) + list(BUILTIN.items())}.get(f, f)] for k, f in static_tables[t]]
-            got = [[k, f] for k, f in rt[t]]
-            norm = lambda rows: [[k, {"inv": "invert"}.get(f, f)] for k, f in rows]
-            if norm(want) != norm(got):
+            want = [[k, f] for k, f in static_tables[t]]
+            got = [[k, names.get(f, f)] for k, f in rt[t]]
+            if want != got:
                 corr_broken.append("translator: static %s %s != runtime %s" % (t, want, got))
         if sorted(static_tables["ALLOWED"]) != sorted(rt["ALLOWED"]):
             corr_broken.append("translator: static ALLOWED %s != runtime %s" % (static_tables["ALLOWED"], rt["ALLOWED"]))
@@ -632,6 +636,34 @@ def run(chk: Check):
                 chk.violation("C20:Expression.__call__:evaluation-order",
                               "the subscriptions performed on x differ from Python's (order, short-circuit or evaluate-once)",
                               dict(w, trace_impl=e["trace_impl"], trace_python=e["trace_cpy"]))
+    # ---- search at the use sites of piquasso/api/instruction.py
+    n_use = n_use_eval = 0
+    for r in recs:
+        u = r.get("use")
+        if not u:
+            continue
+        n_use += 1
+        wit = {"src": r["src"][:120], "call": "pq.Phaseshifter(phi=0.25).when(src) / pq.Phaseshifter(phi=src)"}
+        if u["when"] != r["construct"] or u["param"] != r["construct"]:
+            chk.violation("C20:Instruction.when/_get_unresolved_params:acceptance-differs-from-Expression",
+                          "when(): %s, str parameter: %s, Expression(): %s" % (u["when"], u["param"], r["construct"]), wit)
+        by_x = {json.dumps(e["x"]): e for e in r["evals"]}
+        for e in u["evals"]:
+            n_use_eval += 1
+            ref = by_x.get(json.dumps(e["x"]))
+            if ref is None:
+                continue
+            want = {k: v for k, v in ref["impl"].items() if k != "m"}
+            for site, wrapper in (("condition", "PiquassoException"), ("param", "InvalidParameter")):
+                got = dict(e[site])
+                wrapped = got.pop("wrapped", None)
+                if got != want or ("e" in got and wrapped != wrapper):
+                    chk.violation("C20:Instruction.%s:differs-from-Expression" % ("_is_condition_met" if site == "condition" else "_resolve_params"),
+                                  "use site gives %s (wrapped in %s), Expression(src)(x) gives %s" % (got, wrapped, want),
+                                  dict(wit, x=e["x"]))
+    chk.stream("search: use sites Instruction.when / str parameters / _is_condition_met / _resolve_params vs Expression",
+               n_use + n_use_eval, n_use_eval, kind="search",
+               samples=[{"src": r["src"], "use": r["use"]["when"]} for r in recs if r.get("use")][:1])
     nontrivial = len({r["src"] for r in recs if r["construct"] == "ok" and r.get("nodes", 0) >= 4})
     chk.stream("search: Expression vs CPython eval, acceptance vs grammar recogniser, audit of construction",
                len(recs) + stats["evals"], nontrivial, kind="search",
@@ -655,10 +687,14 @@ def run(chk: Check):
             except Unser:
                 pass
         r["evals_coq"] = keep
-    chunk = 600
+    # few, large files: loading the Coq libraries dominates the cost of a cases file
+    chunk = min(4000, max(200, -(-len(todo) // 4)))
     groups = [todo[k:k + chunk] for k in range(0, len(todo), chunk)]
     bodies = [coq_file([dict(recs[i], evals=recs[i]["evals_coq"]) for i in gidx]) for gidx in groups]
+    t_coq = time.time()
     outs = coq_eval_parallel("c20_cases", bodies, timeout=2400, jobs=4)
+    t_coq = time.time() - t_coq
+    chk.notes.append("timing: implementation runner %.0fs, model evaluation in coqc %.0fs (%d files)" % (t_impl, t_coq, len(bodies)))
     n_tie = n_ood = n_acc = 0
     attributed = 0
     for gidx, o in zip(groups, outs):
@@ -717,3 +753,32 @@ def run(chk: Check):
                     "search = Expression vs CPython eval and vs an independent recogniser.",
         correspondence_broken=corr_broken,
     )
+
+
+def replay(chk: Check, path):
+    """./check C20 --replay <file>: re-run the witnesses of a replay file on the implementation
+    and on CPython and print both results."""
+    data = json.load(open(path))
+    seen = set()
+    req = []
+    for v in data.get("violations", []):
+        w = v.get("witness", {})
+        src, x = w.get("src"), w.get("x")
+        if src is None or "...(" in src or (src, json.dumps(x)) in seen:
+            continue
+        seen.add((src, json.dumps(x)))
+        req.append([src, [x] if x is not None else [jx(())]])
+    if not req:
+        print("nothing to replay (witnesses too long to be stored inline, or broken obligations only): %s"
+              % (data.get("broken_obligations") or data.get("broken_correspondence")))
+        return
+    out = run_impl("c20_impl.py", {"strings": req})
+    bad = 0
+    for r in out["records"]:
+        print("src=%r construct=%s in_grammar=%s" % (r["src"], r["construct"], r.get("in_grammar")))
+        for e in r["evals"]:
+            same = {k: v for k, v in e["impl"].items() if k != "m"} == e["cpy"]
+            bad += 0 if same else 1
+            print("   x=%s implementation=%s python=%s %s" % (json.dumps(e["x"]), e["impl"], e["cpy"], "" if same else "<-- differs"))
+    print("%d evaluation(s) still differ" % bad)
+    raise SystemExit(1 if bad else 0)
